@@ -270,6 +270,32 @@ var NearMissLines = []string{
 	`*/`,
 	`import "strings"`,
 	`import x "h1.tsh"`,
+	// program names of app calls that are odd strings: blank, blanks, a tab, quotes, a path with blanks
+	`@" "()`,
+	`@"  "("a")`,
+	`@"\t"()`,
+	`@""()`,
+	`x90 := @" "("a")`,
+	`@ls() | @" "()`,
+	`@"my prog"("a")`,
+	`@"\"quoted\""()`,
+	`@"a b/c d"("x") | @"\t "("y")`,
+	// string literals with text before an escape the lexer refuses (a Windows path, a regular expression)
+	`x91 := "C:\Users\demo"`,
+	`print("abc\q")`,
+	`x92 := "head\ tail"`,
+	`print("100\%")`,
+	`x93 := "\d+ items"`,
+	`print("unterminated \`,
+	// imports whose path runs through a regular file, ends in a separator, or holds odd bytes
+	`import nm1 "main.tsh/x"`,
+	`import nm2 "main.tsh/"`,
+	`import nm3 "./main.tsh/../main.tsh"`,
+	`import nm4 "` + strings.Repeat("n", 300) + `.tsh"`,
+	`import nm5 "a\x00b.tsh"`,
+	`import nm6 ""`,
+	`import nm7 "."`,
+	`import nm8 "/"`,
 }
 
 // SpliceNearMiss inserts the prelude and one or two near-miss lines into src.
